@@ -122,6 +122,12 @@ func (ch *Channel) run() {
 		close(writerTerminate)
 		<-writerDone
 
+	case err = <-writerDone:
+		// a write failed: close the channel, otherwise it would stay open
+		// without a writer, silently discarding all outgoing frames
+		ch.rwc.Close()
+		<-readerDone
+
 	case <-ch.ctx.Done():
 		close(writerTerminate)
 		<-writerDone
